@@ -304,6 +304,7 @@ class Engine:
         self.fresh_n = 0
         self.inputs = {}
         self.keep_smt2 = False
+        self.entered = set()
         self.cvc5_recheck = bool(os.environ.get("PYVC_CVC5"))
         self.shift_src = {}
         self.func_stack = []
@@ -1229,6 +1230,13 @@ class Engine:
 
     def call_func(self, f, args, kwargs):
         node = f.node
+        # every real function body the engine executes (not replaced by a contract) is code under verification: recorded for the evidence
+        try:
+            owner = getattr(f, "owner", None)
+            mname = f.module["name"] if isinstance(f.module, dict) else str(f.module)
+            self.entered.add("%s.%s%s" % (mname, (owner.name + ".") if owner is not None and hasattr(owner, "name") else "", getattr(node, "name", "<lambda>")))
+        except Exception:      # pragma: no cover
+            pass
         env = Env(f.env)
         env.owner_class = getattr(f, "owner", None) or getattr(f.env, "owner_class", None)
         env.self_obj = args[0] if (getattr(f, "owner", None) is not None and args) else getattr(f.env, "self_obj", None)
